@@ -396,7 +396,7 @@ Lemma stale_sink_excluded_lemma :
   run true (init 1 1) [ENewBegin 0 0; ERlBegin; ERlInit true; ERlLock] = None.
 Proof. vm_compute. reflexivity. Qed.
 
-(* defect 14, current code, at the level of the listener: the closer goroutine closes the descriptor (number 0)
+(* defect 14, the listener before its fix (lf = false), with the current reloadable.go: the closer goroutine closes the descriptor (number 0)
    while the connection goroutine still has its final Flush and the deferred sink Close ahead; the kernel
    gives the same number to a new connection.  The old connection's last records go into the new
    connection's sink, its Close closes that sink and nils the slot; the new connection's next Accept
@@ -409,13 +409,19 @@ Definition slot_reuse_run : list levent :=
     LApi (EAccBegin 1 [3%N]) ].
 
 Lemma slot_reuse_refuted_lemma :
-  exists ls, lrun true (linit 2 1) slot_reuse_run = Some ls /\
+  exists ls, lrun false true (linit 2 1) slot_reuse_run = Some ls /\
              In (OPanic 1 2 [3%N]) (st_log (l_st ls)) /\
              (exists d, nth_error (st_sinks (l_st ls)) 0 = Some d /\ ds_pending d = [1%N] /\ ds_closed d = false) /\
              slot (l_st ls) 0 = None /\
              ~ In 1%N (delivered_recs (st_log (l_st ls))).
 Proof.
-  destruct (lrun true (linit 2 1) slot_reuse_run) as [ls|] eqn:E; [|vm_compute in E; discriminate].
+  destruct (lrun false true (linit 2 1) slot_reuse_run) as [ls|] eqn:E; [|vm_compute in E; discriminate].
   exists ls. split; auto. vm_compute in E. inversion E; subst ls; clear E. simpl.
   split; [auto|]. split; [eexists; repeat split|]. split; [reflexivity|]. intuition discriminate.
 Qed.
+
+(* the same schedule is impossible for the current listener: the descriptor is not closed before the sink *)
+Lemma slot_reuse_excluded_lemma :
+  lrun true true (linit 2 1)
+    [LConnOpen 0 0; LApi (ENewEnd 0); LApi (EAccBegin 0 [1%N]); LApi (EAccEnd 0); LAbort 0; LFdClosed 0] = None.
+Proof. vm_compute. reflexivity. Qed.
